@@ -4,7 +4,17 @@ from .. import oracles, events_oracles
 
 class C07(Prop):
     pid = "C07"
+    quick = {"seeds": 4000, "wall_cap": 90, "chunk": 16}
+    thorough = {"seeds": 80000, "wall_cap": 1500, "chunk": 32}
     level = "exploration"
+    rule = ("one case = one seeded scenario on harmonic-oscillator problems (closed-form trajectory and roots) with 1-3 events (state / time / slope "
+            "dependent, scales 1e-6..1e6, directions -1/0/+1), every method family, both directions, dense on/off; for fixed-step methods the step grid is "
+            "scheduled through the callback seam so that boundaries fall exactly on, one ulp-ish before or after closed-form roots and several roots share "
+            "a step; 45% of histories split the integration AT a root (integrate(root); integrate()).  Non-trivial = at least one event was reported")
+    assumptions = ["closed-form roots exist for harmonic components and pure time events only; other problems get distance-based uniqueness only",
+                   "residual '~0' is read as rounding level relative to the scale of g, or 16 eps in absolute terms",
+                   "root-location bound 10*(E + O(h^4) interpolation error)/|slope| with E the run's own measured global error",
+                   "crossing sense is read off the computed trajectory of the containing step, along the direction of integration (library/scipy convention)"]
 
     def monitors(self, scn):
         mons = [events_oracles.Events(props=("C07",))]
